@@ -97,6 +97,32 @@ def run(chk):
                 bound='6 versions over 1-3 members, overlapping copies, every attachment order; assignment space sampled (' + ('400' if chk.tier == 'thorough' else '60') + ' per member count)')
     finally: shutil.rmtree(fs_root, ignore_errors=True)
 
+    # ---- history on a long-lived filesystem member: a type directory that exists in the flat legacy layout (or empty) is read, then objects of that type are written, then read again
+    hroot = tempfile.mkdtemp(prefix='vf-c18h-')
+    try:
+        import os
+        legacy = stix2.v21.Identity(id='identity--' + D.U(40), name='legacy', created='2020-01-01T00:00:00Z', modified='2020-01-01T00:00:00Z')
+        os.makedirs(os.path.join(hroot, 'identity')); os.makedirs(os.path.join(hroot, 'tool'))
+        open(os.path.join(hroot, 'identity', legacy.id + '.json'), 'w').write(legacy.serialize())
+        store = stix2.FileSystemStore(hroot); comp = CompositeDataSource(); comp.add_data_source(store.source); comp.add_data_source(MemorySource(stix_data=[legacy]))
+        env = Environment(store=store)
+        for src in (store, comp, env):           # first reads
+            src.get(legacy.id); src.query([Filter('type', '=', 'identity')]); src.query([Filter('type', '=', 'tool')]); src.all_versions(legacy.id)
+        newer = legacy.new_version(name='legacy2', modified='2020-02-01T00:00:00Z'); fresh = stix2.v21.Identity(id='identity--' + D.U(41), name='fresh', created='2020-01-01T00:00:00Z', modified='2020-01-01T00:00:00Z')
+        tool = stix2.v21.Tool(id='tool--' + D.U(42), name='t', created='2020-01-01T00:00:00Z', modified='2020-01-01T00:00:00Z', created_by_ref=fresh.id)
+        rel = stix2.v21.Relationship(fresh.id, 'uses', tool.id, id='relationship--' + D.U(43), created='2020-01-01T00:00:00Z', modified='2020-01-01T00:00:00Z')
+        for o in (newer, fresh, tool, rel): store.add(o)
+        for sname, src in (('store', store), ('composite', comp), ('environment', env)):
+            g = src.get(legacy.id)
+            if g is None or g['name'] != 'legacy2': chk.violation(f'history#{sname} sees what was written after its first read', f'{sname}.get after a read-write-read sequence on a flat legacy type directory returns {g and g["name"]!r}, newest is legacy2', {})
+            if src.get(fresh.id) is None or src.get(tool.id) is None: chk.violation(f'history#{sname} sees what was written after its first read', f'{sname}.get misses an object written after its first read', {})
+            got = sorted(o['id'] for o in src.related_to(fresh)); want = [tool.id]
+            if got != want: chk.violation(f'history#{sname} sees what was written after its first read', f'{sname}.related_to after a read-write-read sequence = {got}, scan {want}', {})
+            c = src.creator_of(tool)
+            if c is None or c['id'] != fresh.id: chk.violation(f'history#{sname} sees what was written after its first read', f'{sname}.creator_of after a read-write-read sequence = {c and c["id"]}', {})
+        chk.bounded_runs.append({'name': 'history: read, write, read on a filesystem member with flat legacy / empty type directories', 'bound': 'one scenario x store / composite / Environment x get, related_to, creator_of', 'evaluations': 12, 'distinct_classes': 12, 'witnesses': 0, 'wall_s': 0, 'samples': []})
+    finally: shutil.rmtree(hroot, ignore_errors=True)
+
     # ---- relationship navigation
     ids = ['identity--' + D.U(10 + i) for i in range(4)]
     nodes = [stix2.v21.Identity(id=i, name=f'n{n}', created='2020-01-01T00:00:00Z', modified='2020-01-01T00:00:00Z', created_by_ref=ids[0] if n else None) for n, i in enumerate(ids[:3])]
@@ -132,7 +158,8 @@ def run(chk):
                         if rtype is None and not so and not to:
                             byid = {o['id']: o for o in nodes}
                             for xf in (Filter('name', '=', 'n1'), Filter('type', '!=', 'tool'), Filter('type', '!=', 'identity'), Filter('type', '=', 'tool'), Filter('type', 'in', ['identity', 'x']),
-                                       Filter('type', '>', 'j'), Filter('type', 'contains', 'oo'), Filter('id', '!=', ids[1])):
+                                       Filter('type', '>', 'j'), Filter('type', 'contains', 'oo'), Filter('id', '!=', ids[1]),
+                                       Filter('id', '=', ids[0]), Filter('id', '=', ids[1]), Filter('id', '=', ids[2]), Filter('id', '=', ids[3]), Filter('id', 'in', [ids[1], ids[3]])):
                                 gx = sorted({o['id'] for o in src.related_to(nodes[n], filters=[xf])})
                                 wx = sorted(i for i in wrel if xf._check_property(byid[i][xf.property]))
                                 if gx != wx: return (f'related_to#{sname}:extra filters', f'edges {edges}: {sname}.related_to({oid}, filters=[{xf}]) = {gx}, scan {wx}', {})
